@@ -735,6 +735,13 @@ func detectExeType(src []byte, codeStart, codeEnd *int) byte {
 		}
 	}
 
+	// The header fields cannot be trusted (the block may just look like an
+	// executable): keep the scanned area inside the block.
+	if *codeStart < 0 || *codeStart > *codeEnd || *codeEnd > len(src)-4 {
+		*codeStart = 0
+		*codeEnd = len(src) - 4
+	}
+
 	jumpsX86 := 0
 	jumpsARM64 := 0
 	count := *codeEnd - *codeStart
@@ -841,7 +848,7 @@ func parseExeHeader(src []byte, magic uint, arch, codeStart, codeEnd *int) bool 
 					for i := 0; i < nbEntries; i++ {
 						startEntry := posSection + i*szEntry
 
-						if startEntry+0x28 >= count {
+						if startEntry < 0 || startEntry+0x28 >= count {
 							return false
 						}
 
@@ -896,7 +903,7 @@ func parseExeHeader(src []byte, magic uint, arch, codeStart, codeEnd *int) bool 
 					for i := 0; i < nbEntries; i++ {
 						startEntry := posSection + i*szEntry
 
-						if startEntry+0x28 >= count {
+						if startEntry < 0 || startEntry+0x28 >= count {
 							return false
 						}
 
@@ -968,8 +975,17 @@ func parseExeHeader(src []byte, magic uint, arch, codeStart, codeEnd *int) bool 
 			}
 
 			for cmd < nbCmds {
+				if pos+8 > count {
+					return false
+				}
+
 				ldCmd := int(binary.LittleEndian.Uint32(src[pos:]))
 				szCmd := int(binary.LittleEndian.Uint32(src[pos+4:]))
+
+				if szCmd < 8 {
+					// Invalid load command size
+					return false
+				}
 				szSegHdr := 0x38
 
 				if is64Bits == true {
